@@ -20,7 +20,7 @@ TEXT = {
          "no-frac callee contracts assumed here and proved in unit nofrac; bit_vector bridge lemmas are proved, not assumed"),
  "C07": ("Verus proves %, checked_rem, checked_rem_euclid, rem_euclid for all ten families, and for a primitive-integer divisor checked_rem_int, `fixed % integer`, wrapping/overflowing_rem_int, overflowing/wrapping/plain rem_euclid_int (signed: bit-level proof at every width); Kani proves the Euclidean-division forms on 8-bit layouts outside the region of the recorded finding F-C07-div-euclid",
          "div_euclid family: known finding (region carved out, witness replayed each run), Kani 8-bit only; signed checked_rem_euclid_int (closure in Option::map) Kani 8-bit only"),
- "C08": ("BOUNDED (level other): Kani runs the real parsers on every byte string up to a stated length (9 bytes; 6/8 for decimal), every radix and all nine 8-bit layouts symbolic, against the exactly rounded literal, the overflow/wrap policy and an independent grammar; complete within the bound, never counted as proof.  Verus proves leaf functions only (Mul10, mul_hi_lo)",
+ "C08": ("BOUNDED (level other): Kani runs the real parsers on every byte string up to a stated length (9 bytes; 6/7 for decimal), every radix and all nine 8-bit layouts symbolic, against the exactly rounded literal, the overflow/wrap policy and an independent grammar; complete within the bound, never counted as proof.  Verus proves leaf functions only (Mul10, mul_hi_lo)",
          "bound on string length and width (8-bit types); Kani's model of Rust; two genuine defects found this way were fixed (known_findings.json)"),
  "C09": ("BOUNDED (level other): Kani runs the real formatters on every 8-bit value x all nine layouts: default output correctly rounded and round-trip safe, {:.p} (p <= 9) exactly rounded, flags and width (also together with a precision) only pad/prefix, radix-2^k outputs exact",
          "8-bit layouts, precision <= 9, from_utf8 stubbed; the early-trim defect found this way was fixed (known_findings.json)"),
